@@ -36,6 +36,14 @@ def r_bytes(recs):
     return o.packets()[0]
 
 
+def rq_bytes():
+    from zeroconf import DNSOutgoing, DNSQuestion
+    o = DNSOutgoing(0x8400)
+    o.add_question(DNSQuestion('_u._udp.local.', 12, 0x8001))
+    o.add_answer_at_time(cachesim.mk(rec('KPointer', '_u._udp.local.', 12, 1, alias='w._u._udp.local.', ttl=10)), 0)
+    return o.packets()[0]
+
+
 def datagram_pool():
     ptr = rec('KPointer', T, 12, 1, alias='x.' + T, ttl=4500)
     return {
@@ -52,6 +60,7 @@ def datagram_pool():
         'tc2': q_bytes([(T, 12, False)], known=[ptr], tc=True),
         'tcqu': q_bytes([(T, 12, True)], tc=True),
         'resp': r_bytes([ptr]),
+        'respq': rq_bytes(),        # a response that echoes a QU question (ignored by receivers, but it exempts the datagram from the guard)
         'resp2': r_bytes([rec('KAddress', 'h.local.', 1, 0x8001, address=b'\x0a\x00\x00\x01', ttl=120)]),
         'bad': b'\x00\x01\x02',
         'bad12': bytes(12) + b'\xc0\x0c',
@@ -61,7 +70,7 @@ def datagram_pool():
 
 
 # which pool datagrams contain a question with the unicast-response bit: known from how they were built, not asked of the parser
-QU_NAMES = ('qu', 'qmix', 'tcqu', 'quany', 'qusrv')
+QU_NAMES = ('qu', 'qmix', 'tcqu', 'quany', 'qusrv', 'respq')
 
 
 # ------------------------------------------------------------------------------------------------
@@ -169,6 +178,10 @@ def run_listener(seq, pool):
 CORPUS = [
     [(1300, 'qusrv', '10.0.0.7', 5353)],
     [(0, 'tc1', '10.0.0.7', 40000), (130, 'qmix', '10.0.0.7', 40000)],
+    # a truncated query with a QU question (its copy gets past the duplicate guard and is discarded by the reassembly list), then further
+    # truncated queries whose hold times come from the same random stream
+    [(0, 'tcqu', '10.0.0.7', 5353), (3000, 'tc1', '10.0.0.8', 5353), (6000, 'tc2', '10.0.0.7', 5353)],
+    [(0, 'tc1', '10.0.0.8', 5353), (1300, 'tcqu', '10.0.0.7', 40000), (5000, 'tc1', '10.0.0.8', 5353)],
 ]
 
 
@@ -176,7 +189,7 @@ def gen_history(rng, pool):
     evs = []
     t = 0
     for _ in range(rng.randint(1, 7)):
-        name = rng.choice(['qm', 'qm', 'qm2', 'qu', 'qmix', 'qany', 'qany33', 'qch', 'quany', 'qusrv', 'tc1', 'tc2', 'resp', 'resp2', 'bad', 'respY', 'bye'])
+        name = rng.choice(['qm', 'qm', 'qm2', 'qu', 'qmix', 'qany', 'qany33', 'qch', 'quany', 'qusrv', 'tcqu', 'respq', 'tc1', 'tc2', 'resp', 'resp2', 'bad', 'respY', 'bye'])
         evs.append((t, name, rng.choice(['10.0.0.7', '10.0.0.8', 'fe80::7']), rng.choice([5353, 5353, 5353, 40000])))
         t += rng.choice([1, 30, 130, 450, 600, 1100, 1300, 5000])
     return evs
@@ -217,17 +230,19 @@ def run_history(evs, pool, doubled):
             await sim.sleep(30000)
             t0[0] = sim.now
             base = len(sim.net.log)
+            # "under identical random seeds": one stream of hold times for truncated queries per run, the same with and without the copies -
+            # a copy that is discarded must not consume a draw
+            sim.randoms['tc_delay'] = [400 + (37 * k) % 101 for k in range(60)]
             for (dt, name, src, port) in evs:
                 await sim.sleep_until(t0[0] + dt)
                 sim.randoms['mcast_delay'] = [57]
-                sim.randoms['tc_delay'] = [450]
                 data = pool[name]
                 for _ in range(2 if doubled else 1):
                     if ':' in src:
                         sim.net.inject(a, data, (src, port, 0, 3), sock=1)     # IPv6 socket: 4-tuple source
                     else:
                         sim.net.inject(a, data, (src, port))
-            await sim.sleep(6000)
+            await sim.sleep(25000)      # (long enough for a record cached with a few seconds of TTL to expire and be reaped)
             for (ms, host, dest, data, idx) in sim.net.log[base:]:
                 trace.append(('send', ms - t0[0], dest, data))
             await br.async_cancel()
@@ -271,9 +286,11 @@ def oracle_history(evs, pool):
     # queue - the one answer is held back until the 500 ms bound of the first group (and with it the instance's own loop-back callbacks)
     diffs = sorted([('extra', x) for x in extra_non_ucast] + [('missing', x) for x in missing], key=lambda d: d[1][1])
     if diffs:
-        t_first = diffs[0][1][1]
-        # (the second handling may put its answer into the protected queue: up to 1 s + 200 ms + jitter later)
-        if any(n in QU_NAMES and 0 <= t_first - dt <= 1400 for dt, n, _, _ in evs):
+        # (the second handling may put its answer into the protected queue: up to 1 s + 200 ms + jitter later). Every difference must lie in
+        # such a window: one that does not is not explained by the finding
+        def near_qu(tt):
+            return any(n in QU_NAMES and 0 <= tt - dt <= 1400 for dt, n, _, _ in evs)
+        if all(near_qu(d[1][1]) for d in diffs):
             tags = ('qu_double_multicast',)
     return (f"doubling every datagram changed the observable behaviour: extra {str(extra_non_ucast)[:500]} missing {str(missing)[:300]}"), tags
 
